@@ -315,6 +315,19 @@ class FnView:
                               line=self.blocks[b].get('t', {}).get('l', 0), fn=self.fn))
         return evs
 
+    def loop_heads(self):
+        """blocks terminated by a source-level loop (the do{}while(0) of log/assert macros excluded)"""
+        res = []
+        for b in self.blocks:
+            t = b.get('t')
+            if t and t.get('k') in ('WhileStmt', 'ForStmt', 'DoStmt', 'CXXForRangeStmt'):
+                if t.get('m') in LOG_MACROS or t.get('m') in ('xbt_assert', 'xbt_enforce', 'THROW_IMPOSSIBLE', 'THROW_UNIMPLEMENTED'):
+                    continue
+                if t.get('k') == 'DoStmt' and self.cond_atom(b['id']) and self.cond_atom(b['id'])[0] == ('truthy', ('int', 0)):
+                    continue
+                res.append(b)
+        return res
+
     def catch_blocks(self):
         return [b['id'] for b in self.blocks if b.get('label', {}).get('k') == 'catch']
 
